@@ -30,6 +30,16 @@ func prefixIntrinsic(name string) intrinsic {
 		if strings.HasSuffix(name, ".RLocker") {
 			return nil
 		}
+		// Execution is sequential, so locks are no-ops - except inside rt.Blocked(f), where f stands for another
+		// goroutine: there, taking a lock that the harness's own thread holds parks f (blocked.go).
+		switch {
+		case strings.HasSuffix(name, ".Lock"):
+			return func(m *Machine, args []Value) Value { m.muLock(args[0], true); return nil }
+		case strings.HasSuffix(name, ".Unlock"):
+			return func(m *Machine, args []Value) Value { m.muUnlock(args[0]); return nil }
+		case strings.HasSuffix(name, ".RLock"):
+			return func(m *Machine, args []Value) Value { m.muLock(args[0], false); return nil }
+		}
 		return func(m *Machine, args []Value) Value { return nil }
 	case strings.HasPrefix(name, "(*github.com/syndtr/goleveldb/leveldb.Batch)."):
 		// recording side of a write batch; the wallet layer keeps its own puts/deletes maps
